@@ -209,7 +209,7 @@ func sigIsLG(f *ssa.Function) bool {
 
 func runC16(c *Ctx) {
 	p := c.Prog
-	c.Rule("R16.1", "no registered library function reaches file/process/network/env entry points unless its global is removed before the script runs (exhaustive over registered functions)", 60)
+	c.Rule("R16.1", "no registered library function reaches file/process/network/env entry points unless its global is removed before the script runs (exhaustive over registered functions)", 50)
 	c.Rule("R16.2", "fresh VM per call, SkipOpenLibs=true, openers protected, no shared *LState", 3)
 	c.Rule("R16.3", "a constant deadline <= 5s is installed before the script is entered through DoString", 3)
 	c.Rule("R16.4", "JSON encoder marks tables before descending and never un-marks", 3)
